@@ -630,13 +630,33 @@ def anchors(ctx, crate, spec):
         mc = d.get("must_contain", {})
         for f in cands:
             names = f.j.get("param_names") or []
-            for a, word in mc.items():
+            for a, word in list(mc.items()):
                 i = int(a) - 1
                 if i < len(names):
                     n += 1
                     if word not in names[i]:
-                        raise EngineError("KIND anchor lost: parameter %s of %s is now called `%s` "
-                                          "(expected a name containing `%s`)" % (a, key, names[i], word))
+                        # The parameters still carry the role words but in other positions (the
+                        # signature was reordered): the names define the roles, so re-bind the
+                        # declared kinds by name. Callers that still pass the old order are then
+                        # reported by KIND-ARG. Anything else is a lost anchor.
+                        kind_of = {w: d[x] for x, w in mc.items() if x in d}
+                        new = {}
+                        for x, w0 in mc.items():
+                            j = int(x) - 1
+                            hit = [w for w in kind_of if j < len(names) and w in names[j]]
+                            if len(hit) != 1:
+                                new = None
+                                break
+                            new[x] = hit[0]
+                        if new is None or sorted(new.values()) != sorted(mc.values()):
+                            raise EngineError("KIND anchor lost: parameter %s of %s is now called `%s` "
+                                              "(expected a name containing `%s`)" % (a, key, names[i], word))
+                        for x, w in new.items():
+                            d[x] = kind_of[w]
+                            mc[x] = w
+                        ctx.count("KIND", "anchors re-bound by parameter name", 1)
+                        ctx.listed("KIND", "rebound", "%s: %s" % (key, {x: names[int(x) - 1] for x in new}))
+                        break
     for key in spec.fields:
         adt, fld = key.rsplit(".", 1)
         if adt.startswith("rucrf::"):
@@ -650,8 +670,8 @@ def anchors(ctx, crate, spec):
     ctx.floor("KIND", "anchors verified", n, 80)
 
 
-def run_crate(ctx, crate, only=None):
-    spec = KindSpec()
+def run_crate(ctx, crate, only=None, spec=None):
+    spec = spec or KindSpec()
     E = Effects(crate)
     ka = KindAnalysis(ctx, crate, spec, E)
     ka._pending = []
@@ -679,7 +699,7 @@ def run(ctx, scope=None):
     F = ctx.facts("A")
     spec = KindSpec()
     anchors(ctx, F.lib, spec)
-    total = run_crate(ctx, F.lib, scope)
+    total = run_crate(ctx, F.lib, scope, spec)
     ctx.floor("KIND", "kinded sinks", total, 100 if scope is None else 1)
     ctx.assume("KIND trusts the declaration table spec/kinds.json (confirmed by reading; anchors "
                "are re-verified on every run); only contradictions between declared kinds are "
